@@ -53,11 +53,19 @@ pub mod oracle;
 pub mod c08;
 pub mod c09;
 pub mod c13;
+pub mod c15;
+pub mod c16;
+pub mod c17;
+pub mod c18;
 
 pub fn all_harnesses() -> Vec<&'static Harness> {
     let mut v: Vec<&'static Harness> = Vec::new();
     v.extend(c08::HARNESSES.iter());
     v.extend(c09::HARNESSES.iter());
     v.extend(c13::HARNESSES.iter());
+    v.extend(c15::HARNESSES.iter());
+    v.extend(c16::HARNESSES.iter());
+    v.extend(c17::HARNESSES.iter());
+    v.extend(c18::HARNESSES.iter());
     v
 }
